@@ -138,27 +138,35 @@ def targets():
     return [(p, k) for k in G.KINDS for p in G.PATHS]
 
 
+def units(n_per_target):
+    """Work units (path, kind, round, examples): independent Hypothesis runs of at most 150 examples
+    (one long run clusters); the seed of a unit does not depend on the number of shards."""
+    out = []
+    for path, kind in targets():
+        n = n_per_target if kind != "keypair" else max(4, n_per_target // 3)
+        rounds = (n + 149) // 150
+        for rnd in range(rounds):
+            out.append((path, kind, rnd, n // rounds + (1 if rnd < n % rounds else 0)))
+    return out
+
+
 def worker(seed, shard, nshards, n_per_target):
     warnings.filterwarnings("ignore")
     col = core.Collector(PID)
-    for i, (path, kind) in enumerate(targets()):
+
+    def fn(spec):
+        why = excluded(spec)
+        if why:
+            col.exclude(why)
+            return
+        res = execute(spec)
+        _record(col, spec, res)
+        col.bump("bulk_" + ("accepted" if res["status"] == "accepted" else "not_accepted"))
+
+    for i, (path, kind, rnd, k) in enumerate(units(n_per_target)):
         if i % nshards != shard:
             continue
-
-        def fn(spec):
-            why = excluded(spec)
-            if why:
-                col.exclude(why)
-                return
-            res = execute(spec)
-            _record(col, spec, res)
-            col.bump("bulk_" + ("accepted" if res["status"] == "accepted" else "not_accepted"))
-        n = n_per_target if kind != "keypair" else max(4, n_per_target // 3)
-        # independent Hypothesis runs of at most 150 examples: one long run clusters
-        rounds = (n + 149) // 150
-        for rnd in range(rounds):
-            k = n // rounds + (1 if rnd < n % rounds else 0)
-            core.draw_examples(G.case_s(path, kind), k, core.derive_seed(seed, "c05", path, kind, rnd), fn)
+        core.draw_examples(G.case_s(path, kind), k, core.derive_seed(seed, "c05", path, kind, rnd), fn)
     if shard == 0:
         for label, spec in sorted(known_paths().items()):
             _record(col, spec, execute(spec), ["known-path:" + label])
